@@ -53,6 +53,18 @@ def ftp_odd_names_scenario(name, N=1):
     return scn
 
 
+def ftp_mlsd_scenario(name):
+    """A server with machine listings (MLSD): facts ended by ";", a space, the name - in which ";" and "=" are ordinary
+    characters (RFC 3659 7.2)."""
+    names = ['plain.txt', 'a;b.txt', 'x=1.txt', 'two words.txt']
+    urls = [U(1, host='f.test', path='/', links=list(range(2, 2 + len(names))))]
+    urls += [U(i + 2, host='f.test', path='/' + n) for i, n in enumerate(names)]
+    scn = scenario(name, urls, dict(tries=1), N=1)
+    scn['ftp'] = dict(files={n: 'xyz' for n in names}, dirs=[], listings={},
+                      mlsd={'/': ''.join('type=file;size=3;modify=20200101000000; %s\r\n' % n for n in names)})
+    return scn
+
+
 def ftp_big_directory_scenario(name, n=150, total_line=False):
     """One directory with n files (more than the parser's sample of 100 lines); total_line: the listing begins with the
     "total N" line of `ls -l`, as many servers send it."""
@@ -230,6 +242,7 @@ def c01_catalogue(quick):
     out.append(ftp_scenario('ftp-tree-N1'))
     out.append(ftp_odd_names_scenario('ftp-odd-names-N1'))
     out.append(ftp_big_directory_scenario('ftp-directory-of-150-files'))
+    out.append(ftp_mlsd_scenario('ftp-machine-listing-names'))
     out.append(ftp_big_directory_scenario('ftp-listing-with-total-line', n=5, total_line=True))
     # foreign host, redirect to the foreign host (waived), redirect to a rejected URL, link to rejected
     scope = [U(1, links=[2, 3, 4, 5, 7]), U(2, host='b.test'), U(3, kind='redirect', rto=6),
